@@ -194,6 +194,14 @@ pub fn recover_check(opts: &StoreOpts, dir: &Path, model: &Model, lo: u64, hi: u
 						all_keys.push(k);
 					}
 				}
+				// deep legs alternate between "flush everything, then close" and "close without
+				// flushing" (flush_on_close is a run-time knob): the second keeps recovered data
+				// in the memtable + WAL only, so a recovery that dropped its WAL shows up
+				let no_flush_leg = deep && seed % 2 == 1;
+				let mut opts = opts.clone();
+				if no_flush_leg {
+					opts.flush_on_close = false;
+				}
 				let tree = match open_store(&opts, &dir) {
 					Ok(t) => t,
 					Err(e) => {
@@ -210,7 +218,7 @@ pub fn recover_check(opts: &StoreOpts, dir: &Path, model: &Model, lo: u64, hi: u
 				};
 				let (p, mut viol) = judge_contents_ctx(&model, &got, lo, hi, recovery_flushed);
 				if viol.is_none() && deep {
-					viol = deep_checks(&tree, &opts, &dir, &got, &all_keys).await;
+					viol = deep_checks(&tree, &opts, &dir, &got, &all_keys, no_flush_leg).await;
 					return (viol, p, got);
 				}
 				let _ = tree.close().await;
@@ -249,7 +257,7 @@ pub fn recover_check(opts: &StoreOpts, dir: &Path, model: &Model, lo: u64, hi: u
 
 /// C07 legs on a successfully recovered store: commit to existing keys must be newest
 /// (now, after flush, after reopen); reopening again yields the same contents.
-async fn deep_checks(tree: &surrealkv::Tree, opts: &StoreOpts, dir: &Path, got: &BTreeMap<Key, Val>, keys: &[Key]) -> Option<Violation> {
+async fn deep_checks(tree: &surrealkv::Tree, opts: &StoreOpts, dir: &Path, got: &BTreeMap<Key, Val>, keys: &[Key], no_flush_leg: bool) -> Option<Violation> {
 	let mut expect = got.clone();
 	// overwrite up to 3 existing keys and one fresh key
 	let targets: Vec<Key> = got.keys().take(3).cloned().chain(std::iter::once(b"zz_probe".to_vec())).collect();
@@ -277,15 +285,17 @@ async fn deep_checks(tree: &surrealkv::Tree, opts: &StoreOpts, dir: &Path, got: 
 		}
 		Err(v) => return Some(v),
 	}
-	if let Err(e) = tree.verif_flush_all() {
-		return Some(Violation::new("background_error", format!("flush after recovery failed: {}", e)));
-	}
-	match read_all(tree, &all) {
-		Ok(g) if g == expect => {}
-		Ok(g) => {
-			return Some(Violation::new("probe_shadowed", format!("after flushing, a commit made after recovery is not the newest version: {}", diff(&g, &expect))));
+	if !no_flush_leg {
+		if let Err(e) = tree.verif_flush_all() {
+			return Some(Violation::new("background_error", format!("flush after recovery failed: {}", e)));
 		}
-		Err(v) => return Some(v),
+		match read_all(tree, &all) {
+			Ok(g) if g == expect => {}
+			Ok(g) => {
+				return Some(Violation::new("probe_shadowed", format!("after flushing, a commit made after recovery is not the newest version: {}", diff(&g, &expect))));
+			}
+			Err(v) => return Some(v),
+		}
 	}
 	if let Err(e) = tree.close().await {
 		return Some(Violation::new("close_failed", format!("close after recovery failed: {}", e)));
